@@ -19,7 +19,7 @@ CLAIMED = {
     "C17": dict(
         text="Static analysis for the three UB classes the anchored mechanisms can exhibit: (R1) typestate of every Eigen sparse InnerIterator in the library (accessed only after its operator bool "
              "was tested since construction / last ++, with per-return-value summaries for functions taking iterators by reference); (R2) first/last-element access or address of a possibly empty "
-             "sequence, and every pointer handed to an MPI collective; (R3) coherence between a bounds guard and the exclusive extent of what it protects; (R4) ownership: storage freed by a destructor is not shared with a copy of the object — a user-provided copy constructor must not take over the original's pointers (member-wise or element-wise), a class with a compiler-generated copy constructor and a freeing destructor must not be copied anywhere in the analysed code. All CFG paths, both build configurations.",
+             "sequence, and every pointer handed to an MPI collective; (R3) coherence between a bounds guard and the exclusive extent of what it protects; (R4) ownership: storage freed by a destructor is not shared with a copy of the object — a user-provided copy constructor must not take over the original's pointers (member-wise or element-wise), a class with a compiler-generated copy constructor and a freeing destructor must not be copied anywhere in the analysed code; (R5) no container element erased through the iterator the loop header advances; (R6) IndexClassification::prepare leaves no slot of the index table unwritten and writes none past its extent (the slots are dereferenced right afterwards; rules C18-R1/R2 re-evaluated here). All CFG paths, both build configurations.",
         note="Not a proof of absence of UB: arithmetic overflow, use before prepare/compute, pointer lifetimes and UB outside these mechanisms are not decided. Trusts Eigen/libstdc++ semantics; one class-invariant assumption listed in checks/c17.py.",
         technique="typestate must-dataflow over clang CFG with interprocedural summaries + guard/extent entailment (difference-bound closure)",
         ref="DESIGN.md §3 C17"),
@@ -94,7 +94,7 @@ CLAIMED = {
     "C15": dict(
         text="Static reader/writer agreement of MatsubaraContainer4: the affine index map extracted from fill() composed with the one extracted from operator() is the identity on (n1,n2,n3) for every window size N "
              "(sympy, symbolic in N, same FermionicIndexOffset[B] on both sides); every subscript in the reader is dominated by 0 <= B <= 4N-2 and 0 <= a < rows, 0 <= b < cols (linear entailment against the extents fill() resizes to), "
-             "the writer's loops stay inside those extents, N == 0 is special-cased; every miss returns pSource->value(n1,n2,n3); (R5) the pointer that fallback dereferences is bound for every window size: fill() stores it before every return incl. the empty-window one, and Vertex4::compute reaches fill(this, N) on every path that sets Status = Computed; Vertex4::value == chi + [n1=n3] beta G13 G24 - [n2=n3] beta G14 G23; operator() reads the storage filled from value().",
+             "the writer's loops stay inside those extents, N == 0 is special-cased; every miss returns pSource->value(n1,n2,n3); (R5) the pointer that fallback dereferences is bound for every window size: fill() stores it before every return incl. the empty-window one, and Vertex4::compute reaches fill(this, N) on every path that sets Status = Computed; Vertex4::value == chi + [n1=n3] beta G13 G24 - [n2=n3] beta G14 G23, decided path by path: for each of the five equality patterns of (n1,n2,n3) every feasible CFG path to a return yields that expression (so an early return, a dropped or misplaced term are reported with the pattern); operator() reads the storage filled from value().",
         note="Decides transparency structurally for every frequency triple and window size; numerical equality of stored and recomputed values and the caller's choice of G13..G23 are not decided.",
         technique="extraction and symbolic composition of affine index maps (sympy) + linear-arithmetic entailment of bounds over CFG branch facts",
         ref="DESIGN.md §3 C15"),
